@@ -322,6 +322,12 @@ def run_c12(tier, seed):
                         prog.append(("ZREVRANGEBYSCORE", [b"z1", mx, mn] + ws + [b"LIMIT", str(off).encode(), str(cnt).encode()]))
             grid["zrevrangebyscore"] += len(prog) - len(setup)
             cases.append(prog_case(prog, [], "ZREVRANGEBYSCORE on %d members, 4 ranges x LIMIT grid %s" % (n, "WITHSCORES" if ws else "")))
+    # GETRANGE / SUBSTR with offsets at the limits of int64 (the "to the end" spellings clients use)
+    LIM = [b"0", b"1", b"-1", b"2", b"9223372036854775807", b"9223372036854775806", b"-9223372036854775808", b"-9223372036854775807", b"4611686018427387904", b"2147483647", b"2147483648", b"-2147483649"]
+    for val in (b"abcdef", b"", b"x"):
+        prog = [("SET", [b"s1", val])] + [(cmd, [b"s1", a, b]) for cmd in ("GETRANGE", "SUBSTR") for a in LIM for b in LIM]
+        cases.append(prog_case(prog, [("GET", [b"s1"])], "GETRANGE / SUBSTR on %r with start,end at the int64 limits (%d requests)" % (val, len(prog) - 1)))
+        grid["getrange"] += len(prog) - 1
     # replies with many elements (the element counts the parser pre-allocates for, 1024, and beyond): derived commands that
     # rebuild or reverse an array must keep every element
     for nbig in ((513, 1025) if tier == "quick" else (513, 1024, 1025, 1500, 2049)):
